@@ -1,21 +1,27 @@
 /-
   ActGen: the semantic actions by TRANSLATION.  `tools/extract.py` (`gen_actions`) turns the bodies of
-  the `p_*` functions of parser.py into terms of a small first-order language (`Gen/Actions.lean`:
-  the syntax `ANode/AList/AAttr/ASpan/AStmt/ACond/AProg`, one term `Gen.act_<f>` per function,
-  `Gen.actions`, and `Gen.untranslated` for the functions outside the language; the generator raises on
-  any statement shape it does not know inside a function it claims).
+  ALL 39 `p_*` action functions of parser.py (and the helper `_makeparts`) into terms of a small
+  first-order language (`Gen/Actions.lean`: the syntax `ANode/AList/AAttr/ASpan/ATest/AElem/AStmt/
+  ACond/AProg`, one term `Gen.act_<f>` per function, `Gen.fn_makeparts`, `Gen.actions`,
+  `Gen.untranslated` = [`p_error`], which is yacc's error callback and no action); the generator
+  raises on any statement shape it does not know.
     `ActGen/Eval.lean`    the interpreter `evalAct` of such terms in the model monad (it knows no action);
     `ActGen/Readers.lean` `_partsspan` only reads the state; slots that are / are not tokens;
-    `ActGen/Agree.lean`   `actgen_<f>`: the interpreter on `Gen.act_<f>` is the arm of `actionCore`;
-    `ActGen/All.lean`     `actgen_agree` (all of them), `actgen_covered` (every action function a
-                          production names is translated or listed as untranslated).
+    `ActGen/Agree.lean`, `ActGen/Loops.lean`  `actgen_<f>`: the interpreter on `Gen.act_<f>` is the arm of
+                          `actionCore`; `makeparts_gen`;
+    `ActGen/All.lean`     `actgen_agree` (all 39), `sliceOK`, `actgen_covered`;
+    `ActGen/Driver.lean`  the top-level driver: skeleton check + `parseD_gen`, `driver_pieces`.
 -/
 import Bashlex.Props.ActGen.All
+import Bashlex.Props.ActGen.Driver
 
 namespace Bashlex.ActGen
 
 #print axioms actgen_agree
 #print axioms actgen_covered
+#print axioms makeparts_gen
+#print axioms parseD_gen
+#print axioms driver_pieces
 #print axioms partsspan_dup
 #print axioms partsspan_discard
 #print axioms actgen_p_redirection
